@@ -202,11 +202,20 @@ ExpCall(s, e) ==
            ELSE "OK")
     [] OTHER -> "ERR"
 
+(* a request that is ill-formed in itself may be refused for that before its handles are looked at *)
+IllFormed(e) ==
+  \/ e.proc \in {"CREATE", "MKDIR", "SYMLINK", "MKNOD", "REMOVE", "RMDIR"} /\ BadName(e.name)
+  \/ e.proc = "RENAME" /\ (BadName(e.name) \/ BadName(e.name2))
+  \/ e.proc = "CREATE" /\ e.how = 2
+
 (* an expected success may fail for lack of space *)
-Exp(s, e) == LET x == ExpCall(s, e) IN IF x = "OK" /\ Tight(e) THEN "ANY" ELSE x
+Exp(s, e) == LET x == ExpCall(s, e) IN
+             IF x = "OK" /\ Tight(e) THEN "ANY"
+             ELSE IF x = "STALE" /\ IllFormed(e) THEN "ERR" ELSE x
 
 StatusRules(s, e, x) ==
-  CASE e.st \in {"PANIC", "TIMEOUT"} -> <<"C11:no-reply-" \o e.st>>
+  CASE e.st = "PANIC" -> <<"ALL,C11:no-reply-PANIC">>
+    [] e.st = "TIMEOUT" -> <<"ALL,C06,C11:no-reply-TIMEOUT">>
     [] x = "OK"    -> Fail(e.st # "OK", "C02,C19:refused-but-reference-succeeds")
     [] x = "STALE" -> IF e.st = "OK" THEN <<"C08:dead-handle-accepted">>
                       ELSE Fail(e.st # "STALE", "C08:dead-handle-not-reported-stale")
@@ -272,6 +281,7 @@ PageRules(s, e, d) ==
                   \/ E[i].fh # x.fh \/ E[i].type # x.kind
                   \/ (SizeOf(x) >= 0 /\ E[i].size # SizeOf(x)), "C13:entry-handle-or-attributes")
      \o Fail(~e.reof /\ Len(E) = 0, "C13:empty-page-without-eof")
+     \o Fail(\E i \in 1..Len(E) : E[i].cookie = 0, "C13:entry-cookie-is-the-start-cookie")
 
 (* the enumeration session of directory d *)
 SessOf(s, d) == IF d \in DOMAIN s.sess THEN s.sess[d]
